@@ -188,23 +188,29 @@ func runCase(c conCase) ([]vf.Failure, error) {
 				break
 			}
 		}
-		preps[i] = p
-	}
-	// the model: every distinct operation "run alone" - on a codec of its own that
-	// has seen nothing else (a type whose schema cannot be built fails there; on a
-	// shared codec it must fail the same way whatever was used before it)
-	want := map[op]result{}
-	for _, th := range c.Threads {
-		for _, o := range th {
-			if _, ok := want[o]; !ok {
-				p := preps[o.Msg]
-				alone := private
-				if c.Shared != "global" {
-					alone = s.NewCodec()
+		// and a dotted key into the first singular nested message that has such a field
+	nested:
+		for k := 0; k < md.Fields().Len(); k++ {
+			f := md.Fields().Get(k)
+			if f.ContainingOneof() != nil || f.IsList() || f.IsMap() || f.Message() == nil {
+				continue
+			}
+			for n := 0; n < f.Message().Fields().Len(); n++ {
+				g := f.Message().Fields().Get(n)
+				if g.ContainingOneof() != nil || g.IsList() || g.IsMap() {
+					continue
 				}
-				want[o] = doOp(alone, o, p.md, p.msg, p.doc, p.q)
+				switch g.Kind() {
+				case protoreflect.StringKind:
+					p.q.Set(f.JSONName()+"."+g.JSONName(), "q")
+					break nested
+				case protoreflect.Int32Kind, protoreflect.Int64Kind, protoreflect.Uint32Kind:
+					p.q.Set(f.JSONName()+"."+g.JSONName(), "7")
+					break nested
+				}
 			}
 		}
+		preps[i] = p
 	}
 	for _, i := range c.Warm {
 		p := preps[i]
@@ -232,6 +238,25 @@ func runCase(c conCase) ([]vf.Failure, error) {
 	case <-done:
 	case <-time.After(60 * time.Second):
 		return []vf.Failure{vf.Failf("deadlock|"+c.Shared, "goroutines did not finish within 60 s")}, nil
+	}
+	// Computed after the concurrent phase, so that what the concurrent operations meet in
+	// process-wide state (package-level caches keyed by names or query paths) is as cold as
+	// the process allows - in the fresh process of the confirming re-run, entirely cold.
+	// the model: every distinct operation "run alone" - on a codec of its own that
+	// has seen nothing else (a type whose schema cannot be built fails there; on a
+	// shared codec it must fail the same way whatever was used before it)
+	want := map[op]result{}
+	for _, th := range c.Threads {
+		for _, o := range th {
+			if _, ok := want[o]; !ok {
+				p := preps[o.Msg]
+				alone := private
+				if c.Shared != "global" {
+					alone = s.NewCodec()
+				}
+				want[o] = doOp(alone, o, p.md, p.msg, p.doc, p.q)
+			}
+		}
 	}
 	var fails []vf.Failure
 	q := &j5ref.Equiv{Types: s.Resolver()}
